@@ -4,6 +4,7 @@
 From Coq Require Import ZArith List Bool String Reals.
 From VQ Require Import Num Model.Vec Model.Core Proofs.CoreExpire Proofs.CorePure Glue.CoreGlue Glue.Pin_p_expire.
 From VQ Require Import Glue.Pin_fp_C11.
+From VQ Require Import Glue.Pin_p_rvq_flags.
 Import ListNotations.
 Open Scope R_scope.
 
@@ -181,3 +182,8 @@ Theorem C11_tie_source_footprint :
   fp_C11.fp_C11 = pinned_fp_C11.
 Proof. exact (@Pin_fp_C11.pin_fp_C11). Qed.
 Print Assumptions C11_tie_source_footprint.
+
+Theorem C11_tie_residual_stack_flags_are_the_constructor_arguments :
+  p_rvq_flags.p_rvq_flags = pinned_p_rvq_flags.
+Proof. exact (@Pin_p_rvq_flags.pin_p_rvq_flags). Qed.
+Print Assumptions C11_tie_residual_stack_flags_are_the_constructor_arguments.
